@@ -192,8 +192,9 @@ class Gen:
                 lo = r.choice([None, 0, 1])
                 hi = r.choice([None, 5, 20]) if lo is not None else r.choice([5, 20])
                 ce = ('CIndBounds', N(iid), optZ(lo), optZ(hi))
-            self.ops.append(('ONewConstraint', N(cid), False, ce))
-            self.cons[cid] = dict(opt=False, kind=ce[0], used=False)
+            opt = r.random() < 0.3      # optional indicator constraints bind only when applied
+            self.ops.append(('ONewConstraint', N(cid), opt, ce))
+            self.cons[cid] = dict(opt=opt, kind=ce[0], used=False)
 
     def new_objective(self):
         r = self.r
